@@ -220,6 +220,11 @@ def gen_cases(seed, chunk, n, tier):
                 for s in list(x.blocks):
                     if s not in y.blocks:
                         y.blocks[s] = gen.rand_block(rng, np.shape(x.blocks[s]), dtype)
+            # the two operands store their sectors in independent dict orders
+            items = list(y.blocks.items())
+            rng.shuffle(items)
+            y.blocks.clear()
+            y.blocks.update(items)
             env["y"] = y
             ins = ["x", "y"]
             E = oracle.dense(y)
@@ -341,7 +346,9 @@ def vec_cases(seed, chunk, n, tier):
         ix = gen.rand_index(rng, sym, max_charges=4, max_size=3)
         dtype = rng.choice(["float64", "float32"])
         v = sr.BlockVector({c: gen.rand_block(rng, (d,), dtype, lo=1, hi=4) for c, d in ix.chargemap.items()})
-        w = sr.BlockVector({c: gen.rand_block(rng, (d,), dtype, lo=1, hi=4) for c, d in ix.chargemap.items()})
+        wit = [(c, gen.rand_block(rng, (d,), dtype, lo=1, hi=4)) for c, d in ix.chargemap.items()]
+        rng.shuffle(wit)  # same charges as v, stored in an independent dict order
+        w = sr.BlockVector(dict(wit))
         dv = np.concatenate([v.blocks[c] for c in sorted(v.blocks)])
         dw = np.concatenate([w.blocks[c] for c in sorted(w.blocks)])
         checks = []
